@@ -452,3 +452,80 @@ func ruleServerGoroutinesCanExit(c *Ctx, rule string) {
 	// X1: the wait for handler completion is required by the property itself
 	c.observations = append(c.observations, "exception X1: `<-sh.done` in cancelAndWaitForStreams is a wait for handler completion that C10 itself demands; it is not an escapability violation")
 }
+
+// ruleRegistryRemovalSites: entries leave a registry only through the owner's exit path (which also signals /
+// closes what waiters depend on). A second removal site lets a stream or call vanish from the sweep that
+// awaits or fails it.
+func ruleRegistryRemovalSites(c *Ctx, rule string, field string, allowed []string) {
+	p := c.p
+	n := 0
+	for _, f := range p.Funcs {
+		allInstrs(f, func(i ssa.Instruction) {
+			cl, ok := i.(*ssa.Call)
+			if !ok {
+				return
+			}
+			b, ok := cl.Call.Value.(*ssa.Builtin)
+			if !ok || b.Name() != "delete" {
+				return
+			}
+			fk, ok := mapField(cl.Call.Args[0])
+			if !ok || fk.String() != field {
+				return
+			}
+			n++
+			okSite := false
+			for _, a := range allowed {
+				if p.fnKey(f) == a {
+					okSite = true
+				}
+			}
+			c.check(rule, "delete:"+field+":"+p.cname(f), okSite, "entries of "+field+" are removed only by "+strings.Join(allowed, " / ")+" (the path that also signals completion / closes the entry's channel); a removal elsewhere hides the entry from the connection-end sweep", p.ipos(i))
+		})
+	}
+	c.floor(rule, "removals from "+field, n, 1)
+}
+
+// ruleTerminalErrorIsStatus: what the stream read loop records as terminal error is either errorIfDone's verdict
+// on a trailer envelope or a status error made by toStatusError; toStatusError never hands its argument (or
+// io.EOF) back. Otherwise a transport that fails with io.EOF mid-stream is reported as a clean end of stream.
+func ruleTerminalErrorIsStatus(c *Ctx, rule string) {
+	p := c.p
+	rl := p.MustFn("client.clientStream.readLoop")
+	n := 0
+	for _, s := range p.cellStoresNamed(rl, "rErr") {
+		if s.Parent() != rl {
+			continue
+		}
+		n++
+		ok := false
+		why := "terminal error ← " + p.Origins().Of(s.Val).String()
+		switch v := s.Val.(type) {
+		case *ssa.Call:
+			if sc := v.Call.StaticCallee(); sc != nil && p.fnKey(sc) == "client.toStatusError" {
+				ok = true
+			}
+		case *ssa.Extract:
+			if cl, isC := v.Tuple.(*ssa.Call); isC && cl.Call.StaticCallee() != nil && p.fnKey(cl.Call.StaticCallee()) == "client.errorIfDone" && v.Index == 1 {
+				ok = true
+			}
+		}
+		c.check(rule, "readLoop:terminal-error-source", ok, why+" — must be toStatusError(...) or errorIfDone's verdict (a raw transport error such as io.EOF would read as a clean end of stream)", p.ipos(s))
+	}
+	c.floor(rule, "assignments of the terminal error", n, 3)
+	ts := p.MustFn("client.toStatusError")
+	for _, r := range returnsOf(ts) {
+		o := p.Origins().Of(retVals(r)[0])
+		ok, why := o.AllMatch("call(*Status).Err,...)")
+		c.check(rule, "toStatusError:returns-status-errors", ok, "toStatusError returns only status errors, never its argument or io.EOF: "+why, p.ipos(r))
+	}
+	// the same on the write side of the multiplexed stream: RecvMsg's io.EOF comes only from the recorded terminal state
+	rm := p.MustFn("client.clientStream.RecvMsg")
+	for _, r := range returnsOf(rm) {
+		for _, t := range p.Origins().Of(retVals(r)[0]) {
+			if t.Op == "global" && t.Name == "io.EOF" {
+				c.check(rule, "RecvMsg:EOF-only-from-terminal-state", false, "RecvMsg returns io.EOF directly", p.ipos(r))
+			}
+		}
+	}
+}
